@@ -318,6 +318,36 @@ static std::vector<Case> build_cases(mon::Rng& rng)
     c.call = [](Obs& o) { (*Wd::tptr<long[3]>(*SB, 4240)).copy_and_verify([&](std::array<long, 3> v) { observe(o, v.data(), sizeof(long) * 3); return 0; }); };
     cs.push_back(c);
   }
+  // --- the same with verifiers that take their parameter by const reference (a reference may bind to whatever RLBox passes,
+  //     including an lvalue that still lives in sandbox memory); int has the same representation in application and guest
+  {
+    int32_t arr[3] = { 11, -22, 0x7fffffff };
+    Case c; c.name = "copy_and_verify/volatile-array-long3/const-ref-verifier"; c.off = 4240; c.len = 12; c.A = Bytes(reinterpret_cast<unsigned char*>(arr), reinterpret_cast<unsigned char*>(arr) + 12); c.acts = val_acts;
+    c.elems = [](const Bytes& s) { return decode_elems<long, int32_t>(s, 3); };
+    c.call = [](Obs& o) { (*Wd::tptr<long[3]>(*SB, 4240)).copy_and_verify([&](const std::array<long, 3>& v) { observe(o, v.data(), sizeof(long) * 3); return 0; }); };
+    cs.push_back(c);
+  }
+  {
+    int32_t arr[4] = { 5, -6, 0x7fffffff, 8 };
+    Case c; c.name = "copy_and_verify/volatile-array-int4/const-ref-verifier"; c.off = 4256; c.len = 16; c.A = Bytes(reinterpret_cast<unsigned char*>(arr), reinterpret_cast<unsigned char*>(arr) + 16); c.acts = val_acts;
+    c.elems = [](const Bytes& s) { return decode_elems<int, int32_t>(s, 4); };
+    c.call = [](Obs& o) { (*Wd::tptr<int[4]>(*SB, 4256)).copy_and_verify([&](const std::array<int, 4>& v) { observe(o, v.data(), sizeof(int) * 4); return 0; }); };
+    cs.push_back(c);
+  }
+  {
+    char arr[8] = { 'a', 'b', 'c', 'd', 'e', 'f', 'g', 'h' };
+    Case c; c.name = "copy_and_verify/volatile-array-char8/const-ref-verifier"; c.off = 4272; c.len = 8; c.A = Bytes(reinterpret_cast<unsigned char*>(arr), reinterpret_cast<unsigned char*>(arr) + 8); c.acts = val_acts;
+    c.elems = [](const Bytes& s) { return decode_elems<char, char>(s, 8); };
+    c.call = [](Obs& o) { (*Wd::tptr<char[8]>(*SB, 4272)).copy_and_verify([&](const std::array<char, 8>& v) { observe(o, v.data(), 8); return 0; }); };
+    cs.push_back(c);
+  }
+  {
+    int32_t val = 424242;
+    Case c; c.name = "copy_and_verify/volatile-int/const-ref-verifier"; c.off = 4288; c.len = 4; c.A = Bytes(reinterpret_cast<unsigned char*>(&val), reinterpret_cast<unsigned char*>(&val) + 4); c.acts = val_acts;
+    c.elems = [](const Bytes& s) { return decode_elems<int, int32_t>(s, 1); };
+    c.call = [](Obs& o) { int r = (*Wd::tptr<int>(*SB, 4288)).copy_and_verify([&](const int& v) { observe(o, &v, sizeof(int)); return v; }); set_result(o, r); };
+    cs.push_back(c);
+  }
   // --- ranges
   {
     Case c; c.name = "copy_and_verify_range/char6"; c.off = 4300; c.len = 6; c.A = { 'r', 'a', 'n', 'g', 'e', '!' }; c.acts = val_acts;
